@@ -280,6 +280,36 @@ def _loader(repo, rep):
               "a file template's own directory is put first on the search "
               "path of its load: expression", construct="relative-first",
               where=L.where(pf))
+    # the list that gets the template's directory prepended must be the
+    # template's own (a copy), never the caller's / the loader's list
+    stop = None
+    for i_, st in enumerate(pf.node.body):
+        if isinstance(st, ast.FunctionDef):
+            stop = i_
+            break
+    fresh_ok = False
+    detail = ""
+    if stop is not None:
+        paths = P.enum_paths(pf.node.body[:stop])
+        fresh_ok = bool(paths)
+        for p_ in paths:
+            last = None
+            for ev in p_:
+                if ev[0] == "assign" and ev[1] == "search_path":
+                    last = ev[2]
+            good = last is not None and (
+                isinstance(last, ast.List) or
+                (isinstance(last, ast.Call) and src(last.func) == "list"))
+            if not good:
+                fresh_ok = False
+                detail = "on path [%s] search_path is still the caller's " \
+                         "object" % P.path_text(p_, 8)
+    rep.check(fresh_ok, "R16.3", pf.qualname,
+              "the search path a file template extends with its own "
+              "directory is a fresh list on every path (the loader's shared "
+              "search path is never mutated: resolution does not depend on "
+              "what was loaded before)", construct="fresh-search-path",
+              where=L.where(pf), detail=detail)
     rep.check("self._loader = loader.bind(template_class)" in t and
               "loader_class(search_path=search_path, **config)" in t, "R16.3",
               pf.qualname, "load: uses a loader bound to the same template "
